@@ -76,4 +76,179 @@ F64IsInf(w)  == F64Exp(w) = 2047 /\ IsZero(F64ManW(w))
 F64IsZero(w) == F64Exp(w) = 0 /\ IsZero(F64ManW(w))
 F64Abs(w) == <<w[1], w[2], w[3], w[4] % 32768>>
 F64Neg(w) == <<w[1], w[2], w[3], (w[4] + 32768) % 65536>>
+
+\* ============================================================== arithmetic
+\* Formats: eb exponent bits, mb fraction bits, bias, n limbs of the encoding.
+Fmt16 == [eb |-> 5,  mb |-> 10, bias |-> 15,   n |-> 1]
+Fmt32 == [eb |-> 8,  mb |-> 23, bias |-> 127,  n |-> 2]
+Fmt64 == [eb |-> 11, mb |-> 52, bias |-> 1023, n |-> 4]
+
+FTopFrac(f) == Pow2(15 - f.eb)                       \* weight of the exponent field inside the top limb
+FSign(f, w) == w[f.n] \div 32768
+FExp(f, w)  == (w[f.n] \div FTopFrac(f)) % Pow2(f.eb)
+FFrac(f, w) == [i \in 1..f.n |-> IF i = f.n THEN w[i] % FTopFrac(f) ELSE w[i]]
+FEmax(f)    == Pow2(f.eb) - 1
+FIsNaN(f, w)  == FExp(f, w) = FEmax(f) /\ ~IsZero(FFrac(f, w))
+FIsInf(f, w)  == FExp(f, w) = FEmax(f) /\ IsZero(FFrac(f, w))
+FIsZero(f, w) == FExp(f, w) = 0 /\ IsZero(FFrac(f, w))
+FIsDen(f, w)  == FExp(f, w) = 0 /\ ~IsZero(FFrac(f, w))
+FNegW(f, w)   == [w EXCEPT ![f.n] = (@ + 32768) % 65536]
+FAbsW(f, w)   == [w EXCEPT ![f.n] = @ % 32768]
+FInfW(f, s)   == [i \in 1..f.n |-> IF i = f.n THEN s * 32768 + FEmax(f) * FTopFrac(f) ELSE 0]
+FZeroW(f, s)  == [i \in 1..f.n |-> IF i = f.n THEN s * 32768 ELSE 0]
+\* word with value x in the exponent field
+FExpW(f, x)   == [i \in 1..f.n |-> IF i = f.n THEN x * FTopFrac(f) ELSE 0]
+FSignW(f, s)  == [i \in 1..f.n |-> IF i = f.n THEN s * 32768 ELSE 0]
+
+\* result of an arithmetic operation: nan = TRUE means "any NaN", else the word w
+FVal(w) == [nan |-> FALSE, w |-> w]
+FNaN    == [nan |-> TRUE, w |-> <<>>]
+
+BitLen(m) == IF IsZero(m) THEN 0 ELSE Width(m) - FindHigh1(m)
+
+\* finite non-zero value (-1)^s * m * 2^e, m an integer word
+Unpack(f, w) ==
+  LET E == FExp(f, w)
+  IN [s |-> FSign(f, w),
+      m |-> IF E = 0 THEN FFrac(f, w) ELSE SetBit(FFrac(f, w), f.mb, 1),
+      e |-> (IF E = 0 THEN 1 ELSE E) - f.bias - f.mb]
+
+\* m >> k rounded to nearest, ties to even (k >= 1; m has a spare top limb)
+RShiftRNE(m, k) ==
+  LET L == BitLen(m)
+      n == Len(m)
+  IN IF k > L THEN Zero(n)
+     ELSE LET res  == Shr(m, k)
+              low  == WAnd(m, MaskLow(k, n))
+              half == SetBit(Zero(n), k - 1, 1)
+              up   == Ult(half, low) \/ (low = half /\ Bit(res, 0) = 1)
+          IN IF up THEN Plus(res, One(n)) ELSE res
+
+\* the IEEE round-to-nearest-even encoding of the exact value (-1)^s * M * 2^e  (M # 0)
+RoundPack(f, s, M, e) ==
+  LET n0 == IF Len(M) > f.n THEN Len(M) ELSE f.n
+      MM == ZExt(M, n0 + 1)
+      L  == BitLen(MM)
+      qe == 1 - f.bias - f.mb                 \* quantum of the subnormals
+      q0 == e + L - 1 - f.mb                  \* quantum that keeps mb+1 significant bits
+      q  == IF q0 > qe THEN q0 ELSE qe
+      k  == q - e
+      r0 == IF k <= 0 THEN Shl(MM, -k) ELSE RShiftRNE(MM, k)
+      top == SetBit(Zero(n0 + 1), f.mb + 1, 1)            \* 2^(mb+1)
+      hid == SetBit(Zero(n0 + 1), f.mb, 1)                \* 2^mb
+      carry == r0 = top
+      r  == IF carry THEN hid ELSE r0
+      q1 == IF carry THEN q + 1 ELSE q
+      be == q1 + f.mb + f.bias
+  IN IF Ult(r, hid) THEN WOr(Trunc(r, f.n), FSignW(f, s))            \* subnormal or zero
+     ELSE IF be >= FEmax(f) THEN FInfW(f, s)
+     ELSE WOr(Plus(Trunc(r, f.n), FExpW(f, be - 1)), FSignW(f, s))
+
+\* exact sum of two finite non-zero unpacked values, rounded; nw = working limbs
+SumRound(f, x, y, nw) ==
+  LET X  == IF x.e >= y.e THEN x ELSE y            \* larger exponent
+      Y  == IF x.e >= y.e THEN y ELSE x
+      T  == BitLen(Y.m) + f.mb + 4
+      Y2 == IF X.e - Y.e > T THEN [s |-> Y.s, m |-> One(1), e |-> X.e - T] ELSE Y   \* sticky stand-in
+      sh == X.e - Y2.e
+      MX == Shl(ZExt(X.m, nw), sh)
+      MY == ZExt(Y2.m, nw)
+  IN IF X.s = Y2.s THEN FVal(RoundPack(f, X.s, Plus(MX, MY), Y2.e))
+     ELSE IF MX = MY THEN FVal(FZeroW(f, 0))
+     ELSE IF Ult(MY, MX) THEN FVal(RoundPack(f, X.s, Minus(MX, MY), Y2.e))
+     ELSE FVal(RoundPack(f, Y2.s, Minus(MY, MX), Y2.e))
+
+AddWork(f) == ((3 * (f.mb + 1) + 8) \div 16) + 2
+FmaWork(f) == ((5 * (f.mb + 1) + 8) \div 16) + 2
+
+FAdd(f, a, b) ==
+  IF FIsNaN(f, a) \/ FIsNaN(f, b) THEN FNaN
+  ELSE IF FIsInf(f, a) THEN (IF FIsInf(f, b) /\ FSign(f, a) # FSign(f, b) THEN FNaN ELSE FVal(a))
+  ELSE IF FIsInf(f, b) THEN FVal(b)
+  ELSE IF FIsZero(f, a) THEN (IF FIsZero(f, b) THEN FVal(FZeroW(f, IF FSign(f, a) = FSign(f, b) THEN FSign(f, a) ELSE 0))
+                              ELSE FVal(b))
+  ELSE IF FIsZero(f, b) THEN FVal(a)
+  ELSE SumRound(f, Unpack(f, a), Unpack(f, b), AddWork(f))
+FSub(f, a, b) == FAdd(f, a, FNegW(f, b))
+
+FMul(f, a, b) ==
+  LET s == (FSign(f, a) + FSign(f, b)) % 2
+  IN IF FIsNaN(f, a) \/ FIsNaN(f, b) THEN FNaN
+     ELSE IF FIsInf(f, a) \/ FIsInf(f, b) THEN (IF FIsZero(f, a) \/ FIsZero(f, b) THEN FNaN ELSE FVal(FInfW(f, s)))
+     ELSE IF FIsZero(f, a) \/ FIsZero(f, b) THEN FVal(FZeroW(f, s))
+     ELSE LET x == Unpack(f, a)
+              y == Unpack(f, b)
+          IN FVal(RoundPack(f, s, Mul(x.m, y.m), x.e + y.e))
+
+\* fused multiply-add: one rounding of a*b + c
+FFma(f, a, b, c) ==
+  LET ps == (FSign(f, a) + FSign(f, b)) % 2
+      pinf == FIsInf(f, a) \/ FIsInf(f, b)
+      pzero == FIsZero(f, a) \/ FIsZero(f, b)
+  IN IF FIsNaN(f, a) \/ FIsNaN(f, b) \/ FIsNaN(f, c) THEN FNaN
+     ELSE IF pinf /\ pzero THEN FNaN
+     ELSE IF pinf THEN (IF FIsInf(f, c) /\ FSign(f, c) # ps THEN FNaN ELSE FVal(FInfW(f, ps)))
+     ELSE IF FIsInf(f, c) THEN FVal(c)
+     ELSE IF pzero THEN (IF FIsZero(f, c) THEN FVal(FZeroW(f, IF ps = FSign(f, c) THEN ps ELSE 0)) ELSE FVal(c))
+     ELSE LET x == Unpack(f, a)
+              y == Unpack(f, b)
+              p == [s |-> ps, m |-> Mul(x.m, y.m), e |-> x.e + y.e]
+          IN IF FIsZero(f, c) THEN FVal(RoundPack(f, ps, p.m, p.e))
+             ELSE SumRound(f, p, Unpack(f, c), FmaWork(f))
+
+\* unfused multiply-add (V_MAD_F32 / V_MAC_F32): product rounded, then sum rounded
+FMad(f, a, b, c) == LET p == FMul(f, a, b) IN IF p.nan THEN FNaN ELSE FAdd(f, p.w, c)
+
+\* ------------------------------------------------------------ conversions
+\* integer word (unsigned magnitude) with sign s -> float
+FFromInt(f, s, m) == IF IsZero(m) THEN FZeroW(f, 0) ELSE RoundPack(f, s, m, 0)
+FFromS(f, w) == FFromInt(f, Sign(w), Abs(w))
+FFromU(f, w) == FFromInt(f, 0, w)
+
+\* float -> float (binary64 -> binary32 / binary16 round to nearest even, binary32 -> binary64 exact)
+FConv(g, f, w) ==   \* from format f to format g
+  IF FIsNaN(f, w) THEN FNaN
+  ELSE IF FIsInf(f, w) THEN FVal(FInfW(g, FSign(f, w)))
+  ELSE IF FIsZero(f, w) THEN FVal(FZeroW(g, FSign(f, w)))
+  ELSE LET x == Unpack(f, w) IN FVal(RoundPack(g, x.s, x.m, x.e))
+
+\* integer part toward zero of a finite float as an unsigned magnitude of nl limbs, saturating
+\* (value >= 2^(16*nl) gives all ones)
+FTruncMag(f, w, nl) ==
+  LET x == Unpack(f, w)
+      L == BitLen(x.m)
+  IN IF FIsZero(f, w) THEN Zero(nl)
+     ELSE IF x.e >= 0 THEN (IF L + x.e > 16 * nl THEN Ones(nl) ELSE Shl(ZExt(x.m, nl + f.n), x.e))
+     ELSE IF -x.e >= L THEN Zero(nl)
+     ELSE Shr(ZExt(x.m, nl + f.n), -x.e)
+
+\* V_CVT_U32_F32 / V_CVT_I32_F32: truncate, saturate, NaN -> 0
+FToU32(f, w) ==
+  IF FIsNaN(f, w) THEN <<0, 0>>
+  ELSE IF FSign(f, w) = 1 THEN <<0, 0>>
+  ELSE IF FIsInf(f, w) THEN <<65535, 65535>>
+  ELSE LET m == FTruncMag(f, w, 2 + f.n) IN IF ~IsZero(SubSeq(m, 3, Len(m))) THEN <<65535, 65535>> ELSE Trunc(m, 2)
+FToI32(f, w) ==
+  IF FIsNaN(f, w) THEN <<0, 0>>
+  ELSE LET big == FIsInf(f, w)
+           m == IF big THEN Ones(2 + f.n) ELSE FTruncMag(f, w, 2 + f.n)
+           over == ~IsZero(SubSeq(m, 3, Len(m))) \/ m[2] >= 32768    \* magnitude >= 2^31
+       IN IF FSign(f, w) = 0 THEN (IF over THEN <<65535, 32767>> ELSE Trunc(m, 2))
+          ELSE (IF over THEN <<0, 32768>> ELSE Neg(Trunc(m, 2)))
+
+\* V_TRUNC_F32 / V_RNDNE_F32 (results are floats)
+FTruncF(f, w) ==
+  IF FIsNaN(f, w) THEN FNaN
+  ELSE IF FIsInf(f, w) \/ FIsZero(f, w) THEN FVal(w)
+  ELSE LET x == Unpack(f, w)
+       IN IF x.e >= 0 THEN FVal(w)
+          ELSE LET m == IF -x.e >= BitLen(x.m) THEN Zero(f.n) ELSE Shr(x.m, -x.e)
+               IN IF IsZero(m) THEN FVal(FZeroW(f, x.s)) ELSE FVal(RoundPack(f, x.s, m, 0))
+FRndneF(f, w) ==
+  IF FIsNaN(f, w) THEN FNaN
+  ELSE IF FIsInf(f, w) \/ FIsZero(f, w) THEN FVal(w)
+  ELSE LET x == Unpack(f, w)
+       IN IF x.e >= 0 THEN FVal(w)
+          ELSE LET m == RShiftRNE(ZExt(x.m, f.n + 1), -x.e)
+               IN IF IsZero(m) THEN FVal(FZeroW(f, x.s)) ELSE FVal(RoundPack(f, x.s, m, 0))
 =============================================================================
